@@ -47,11 +47,10 @@ Theorem C11_plain_roundtrip : forall v d r,
 Proof. exact plain_roundtrip_lemma. Qed.
 Print Assumptions C11_plain_roundtrip.
 
-(* For every byte string and every destination (any kind, settable or not, nil pointers inside
-   included) the plain decoder returns a value or an error, never a panic.  The guard excludes
-   only a nil *string / *[]byte handed in as the destination itself. *)
-Theorem C11_plain_decode_total : forall data d,
-  dst_nonnil d = true -> plain_unmarshal data d <> Panic.
+(* For every byte string and EVERY destination (any kind, settable or not, nil pointers at any
+   level including a nil *string / *[]byte as the destination itself) the plain decoder returns
+   a value or an error, never a panic. *)
+Theorem C11_plain_decode_total : forall data d, plain_unmarshal data d <> Panic.
 Proof. exact plain_decode_total_lemma. Qed.
 Print Assumptions C11_plain_decode_total.
 
@@ -85,11 +84,19 @@ Proof. exact form_values_roundtrip_lemma. Qed.
 Print Assumptions C11_form_values_roundtrip.
 
 (* For every byte string and EVERY destination (any struct shape: unsupported kinds, pointers,
-   tagged structs, duplicate keys, unexported fields, arrays of any length including 0) the
-   form decoder returns a value or an error, never a panic. *)
+   tagged structs, duplicate keys, unexported fields, arrays of any length including 0; maps;
+   pointers to interface types whether or not they can hold the map; foreign types) the form
+   decoder returns a value or an error, never a panic. *)
 Theorem C11_form_decode_total : forall data d, form_unmarshal data d <> Panic.
 Proof. exact form_decode_total_lemma. Qed.
 Print Assumptions C11_form_decode_total.
+
+(* an interface destination receives the parsed map exactly when it can hold it *)
+Theorem C11_form_interface_destination : forall data form,
+  parse_query data = Some form ->
+  form_unmarshal data (TIface true) = Ok (RValues form) /\ form_unmarshal data (TIface false) = Err.
+Proof. exact form_iface_lemma. Qed.
+Print Assumptions C11_form_interface_destination.
 
 (* The decoder stays inside the destination: an accepted array keeps its length, the elements
    of an accepted slice are of the element type, a set field keeps its kind and width. *)
@@ -109,7 +116,7 @@ Theorem C11_form_decode_field_kind : forall cur s l,
 Proof. exact set_wpt_kind. Qed.
 Print Assumptions C11_form_decode_field_kind.
 
-(* ---- the code as pinned violates both halves of the property ---- *)
+(* ---- the code as pinned violates both halves of the property (four defects, all repaired) ---- *)
 
 (* {A: []int{1,2,3}} `form:"a"` encodes as a=3&a=2&a=1 and decodes to [3 2 1] *)
 Theorem C11_form_order_refuted :
@@ -124,6 +131,22 @@ Theorem C11_form_total_refuted :
   exists data fs, form_unmarshal_prefix data (TStruct fs) = Panic.
 Proof. exact form_total_refuted_lemma. Qed.
 Print Assumptions C11_form_total_refuted.
+
+(* a=1 into a *io.Reader panics in reflect.Value.Set *)
+Theorem C11_form_interface_refuted : exists data, form_unmarshal_prefix data (TIface false) = Panic.
+Proof. exact form_iface_refuted_lemma. Qed.
+Print Assumptions C11_form_interface_refuted.
+
+(* any bytes into a nil *string dereference nil; away from nil *string / *[]byte destinations
+   the pinned plain decoder was already total *)
+Theorem C11_plain_total_refuted : exists data d, plain_unmarshal_prefix data d = Panic.
+Proof. exact plain_total_refuted_lemma. Qed.
+Print Assumptions C11_plain_total_refuted.
+
+Theorem C11_plain_decode_total_prefix_guarded : forall data d,
+  dst_nonnil d = true -> plain_unmarshal_prefix data d <> Panic.
+Proof. exact plain_decode_total_prefix_lemma. Qed.
+Print Assumptions C11_plain_decode_total_prefix_guarded.
 
 (* ---- delegating codecs (json, xml, protobuf, thrift): the repository's dispatch keeps the
         library's contract; the contract itself is a hypothesis, tested by the harness ---- *)
@@ -170,6 +193,6 @@ Example C11_repaired_on_witnesses :
                        (FArray (LStr []) [LStr (str "1"); LStr (str "2")]) FNil)).
 Proof. exact form_repaired_on_witnesses. Qed.
 
-(* a nil *string as destination panics (outside the guard of C11_plain_decode_total) *)
-Example C11_plain_nil_destination : plain_unmarshal (str "x") DStrNil = Panic.
+(* a nil *string as destination: an error now *)
+Example C11_plain_nil_destination : plain_unmarshal (str "x") DStrNil = Err.
 Proof. reflexivity. Qed.
